@@ -3,6 +3,7 @@ import ast
 import itertools
 
 from ..core import astutil as A
+from ..core import match as M
 from ..core.model import dotted
 from ..core.report import AnalysisError
 
@@ -40,7 +41,7 @@ class Interp:
 
     def block(self, stmts, env):
         for st in stmts:
-            if isinstance(st, ast.Expr) and isinstance(st.value, ast.Constant):
+            if isinstance(st, ast.Pass) or (isinstance(st, ast.Expr) and isinstance(st.value, ast.Constant)):
                 continue
             if isinstance(st, ast.If):
                 r = self.block(st.body if self.truth(st.test, env) else st.orelse, env)
@@ -160,10 +161,13 @@ def run(ctx):
     LC = P.cls(MOD, "ListChange")
     orf = LC.methods["__or__"]
     pi = LC.methods["__post_init__"]
-    # the invariants the valuations rely on
-    t = A.unparse(pi.node)
-    ctx.check("R1", pi, "if self.replace is not None and (self.add or self.remove):\n        raise" in t, "invariant-replace-excludes-add-remove", "__post_init__ refuses replace together with add/remove")
-    ctx.check("R1", pi, "frozenset(self.add) & frozenset(self.remove)" in t and t.count("raise BugzillaUsageError") == 2, "invariant-no-overlap", "__post_init__ refuses a value that is both added and removed")
+    # the invariants the valuations rely on (messages are not part of the clause)
+    usage = [r for r in A.raises(pi.node) if A.raised_name(r) == "BugzillaUsageError"]
+    ctx.check("R1", pi, M.has(pi.node, "if self.replace is not None and (self.add or self.remove):\n    raise $_"), "invariant-replace-excludes-add-remove", "__post_init__ refuses replace together with add/remove")
+    ov_tests = ("($o := frozenset(self.add) & frozenset(self.remove))", "frozenset(self.add) & frozenset(self.remove)")
+    ov = [n for n in A.body_walk(pi.node) if isinstance(n, ast.If) and any(M.pat(t).matches(n.test) for t in ov_tests)
+          and any(isinstance(b, ast.Raise) and A.raised_name(b) == "BugzillaUsageError" for b in n.body)]
+    ctx.check("R1", pi, len(ov) == 1 and len(usage) == 2, "invariant-no-overlap", "__post_init__ refuses a value that is both added and removed")
 
     # ---- R2 composition law ------------------------------------------------------------------------------
     n_val = 0
@@ -209,11 +213,18 @@ def run(ctx):
 
     # ---- R3 change wire form ---------------------------------------------------------------------------------
     tw = LC.methods["to_wire"]
-    t = A.unparse(tw.node)
-    ctx.check("R3", tw, "if self.replace is not None:\n        return {'set': [str(x) for x in self.replace]}" in t, "set-emitted-when-present", "a set (even empty) is sent as `set`")
-    ctx.check("R3", tw, "if self.add:\n        wire['add']" in t and "if self.remove:\n        wire['remove']" in t, "add-remove-emitted-when-nonempty", "add/remove are sent only when non-empty")
+    ctx.check("R3", tw, M.has(tw.node, "if self.replace is not None:\n    return {'set': [str($x) for $x in self.replace]}"), "set-emitted-when-present", "a set (even empty) is sent as `set`")
+    # the dict that is filled and returned is located by its role (`$wire[...] = ...` under the guard, then `return $wire`)
+    m_add = M.one(tw.node, "if self.add:\n    $wire['add'] = $_\n...\nreturn $wire")
+    m_rem = M.one(tw.node, "if self.remove:\n    $wire['remove'] = $_\n...\nreturn $wire", m_add.env if m_add else None)
+    ctx.check("R3", tw, m_add is not None and m_rem is not None, "add-remove-emitted-when-nonempty", "add/remove are sent only when non-empty")
     bl = LC.methods["__bool__"]
-    ctx.check("R3", bl, A.unparse(bl.node.body[-1]) == "return bool(self.add or self.remove or self.replace is not None)", "empty-set-is-a-change", "an explicit empty set counts as a change (it is emitted)")
+    rets = A.returns(bl.node)
+    rv = rets[0].value if len(rets) == 1 else None
+    terms = None
+    if isinstance(rv, ast.Call) and dotted(rv.func) == "bool" and len(rv.args) == 1 and not rv.keywords and isinstance(rv.args[0], ast.BoolOp) and isinstance(rv.args[0].op, ast.Or):
+        terms = sorted(A.unparse(x) for x in rv.args[0].values)
+    ctx.check("R3", bl, terms == sorted(["self.add", "self.remove", "self.replace is not None"]), "empty-set-is-a-change", "an explicit empty set counts as a change (it is emitted)")
     ctx.floor("R3", 3)
 
     # ---- R4 BugUpdate.to_wire field coverage --------------------------------------------------------------------
@@ -221,20 +232,34 @@ def run(ctx):
     fields = [st.target.id for st in BU.node.body if isinstance(st, ast.AnnAssign) and isinstance(st.target, ast.Name)]
     ctx.require(len(fields) >= 15, f"BugUpdate: only {len(fields)} dataclass fields found")
     uw = BU.methods["to_wire"]
+    # the payload variable is the name the method returns (today `wire`)
+    urets = sorted(A.returns(uw.node), key=lambda r: r.lineno)
+    ctx.require(bool(urets) and all(isinstance(r.value, ast.Name) for r in urets) and len({r.value.id for r in urets}) == 1, "BugUpdate.to_wire: does not return one payload variable")
+    wire = urets[-1].value.id
+
+    def self_attrs(n):
+        return {x.attr for x in A.walk(n) if isinstance(x, ast.Attribute) and isinstance(x.value, ast.Name) and x.value.id == "self"}
+
+    def wire_stores(n):
+        return [s for s in A.walk(n) if isinstance(s, ast.Assign) and isinstance(s.targets[0], ast.Subscript) and isinstance(s.targets[0].value, ast.Name) and s.targets[0].value.id == wire]
     emitted = {}
     for st in uw.node.body:
         if isinstance(st, ast.If):
-            stores = [s for s in A.walk(st) if isinstance(s, ast.Assign) and isinstance(s.targets[0], ast.Subscript) and A.unparse(s.targets[0].value) == "wire"]
-            mentioned = {n.attr for n in A.walk(st.test) if isinstance(n, ast.Attribute) and A.unparse(n.value) == "self"}
-            for s in stores:
-                vals = {n.attr for n in A.walk(s.value) if isinstance(n, ast.Attribute) and A.unparse(n.value) == "self"}
+            mentioned = self_attrs(st.test)
+            for s in wire_stores(st):
                 inner = [p for p in A.parents(s) if isinstance(p, ast.If) and p is not st]
-                for f in vals:
+                for f in self_attrs(s.value):
                     emitted[f] = (mentioned, bool(inner), s)
-        elif isinstance(st, ast.For) and isinstance(st.iter, ast.Tuple):
+        elif isinstance(st, ast.For) and isinstance(st.iter, (ast.Tuple, ast.List)) and isinstance(st.target, ast.Name):
             names = [e.value for e in st.iter.elts if isinstance(e, ast.Constant)]
-            body = A.unparse(st)
-            ok = "getattr(self, name)" in body and "wire[name] = change.to_wire()" in body and "if (change :=" in body
+            env = {"wire": wire, "name": st.target.id}
+            # if <c> := [cast(..., ]getattr(self, <name>)[)]:  wire[<name>] = <c>.to_wire()   — directly in the loop body
+            ms = [m for m in M.find(st.body, "if ($c := $$v):\n    $wire[$name] = $c.to_wire()", env) if any(m.node is b for b in st.body)]
+            ok = False
+            for m in ms:
+                v = m.env["$v"]
+                src = v.args[-1] if isinstance(v, ast.Call) and dotted(v.func) in ("typing.cast", "cast") and len(v.args) == 2 else v
+                ok = ok or (M.pat("getattr(self, $name)").matches(src, env) is not None and not self_attrs(m.node.test))
             for f in names:
                 emitted[f] = ({f}, not ok, st)
     for f in fields:
@@ -246,7 +271,9 @@ def run(ctx):
                   f"BugUpdate.{f} is emitted under a guard that also depends on {sorted(mentioned - {f}) or 'an inner condition'}: a set `{f}` can be dropped from the payload", node=node)
     extra = set(emitted) - set(fields)
     ctx.check("R4", uw, not extra, f"no-extra-fields:{sorted(extra)}", "nothing but dataclass fields (and the ids) is emitted")
-    ctx.check("R4", uw, "wire: RawBugUpdate = {'ids': [BugId(int(x)) for x in ids]}" in A.unparse(uw.node) and "if not ids:\n        raise" in A.unparse(uw.node), "ids-always", "the id list is always sent and must not be empty")
+    ids_ok = any(M.has(uw.node.body, "if not ids:\n    raise $_\n...\n" + init, {"wire": wire})
+                 for init in ("$wire: $_ = {'ids': [BugId(int($x)) for $x in ids]}", "$wire = {'ids': [BugId(int($x)) for $x in ids]}"))
+    ctx.check("R4", uw, ids_ok, "ids-always", "the id list is always sent and must not be empty")
     ctx.floor("R4", 30)
 
 
